@@ -274,7 +274,10 @@ impl ParquetTable {
                 let ndv_est = if acc.has_int_stats {
                     match (min_i64, max_i64) {
                         (Some(min), Some(max)) if max >= min => {
-                            Some(non_null.min((max - min) as u64 + 1))
+                            // Width of [min, max] in i128: `max - min` overflows
+                            // i64 for ranges wider than i64::MAX.
+                            let width = (max as i128) - (min as i128) + 1;
+                            Some(non_null.min(u64::try_from(width).unwrap_or(u64::MAX)))
                         }
                         _ => None,
                     }
